@@ -215,6 +215,10 @@ func init() {
 
 func c05Run(t *testing.T, r *verifsim.Run) {
 	tp := r.T
+	if tp.Chance("large-group-mode", 2, 5) {
+		c05LargeRun(r)
+		return
+	}
 	w := &c05World{r: r, down: map[int]bool{}}
 	w.n = 3 + tp.Weighted("n", 4, 2, 1)
 	maxT := (w.n - 1) / 2
@@ -498,13 +502,18 @@ func c05Run(t *testing.T, r *verifsim.Run) {
 	}
 	synctest.Wait()
 
-	// ---- oracle
+	c05Judge(w, selected, fmt.Sprintf("layout=%v", layout))
+}
+
+// c05Judge compares every finished member with the reference model.
+func c05Judge(w *c05World, selected []chain.Address, cfg string) {
+	r := w.r
 	for _, m := range w.members[1:] {
 		if !m.live || !m.done {
 			continue
 		}
 		wantSigner, wantOps := c05Expect(w, m, selected)
-		desc := fmt.Sprintf("member %d (n=%d h=%d layout=%v down=%v publication-failed=%v event=%s)", m.idx, w.n, w.h, layout, c05Keys(w.down), m.pubFailed, c05EvString(w, m.got))
+		desc := fmt.Sprintf("member %d (n=%d h=%d %s down=%v publication-failed=%v event=%s)", m.idx, w.n, w.h, cfg, c05Keys(w.down), m.pubFailed, c05EvString(w, m.got))
 		if m.pubFailed {
 			r.Probe("publication-failed")
 			if wantSigner {
